@@ -96,6 +96,9 @@ def run_part(part: Part, ctx: Ctx, stats: Stats, examples: int, known: typing.Di
 
     _engine.MAX_SHRINKING_SECONDS = shrink_cap
 
+    import signal
+
+    signal.signal(signal.SIGALRM, _alarm)
     excluded: typing.Set[str] = set()
 
     def guard(case: typing.Any, thunk: typing.Callable[[], typing.Any]) -> typing.Tuple[bool, typing.Any]:
@@ -166,6 +169,11 @@ def run_part(part: Part, ctx: Ctx, stats: Stats, examples: int, known: typing.Di
         verbosity=hypothesis.Verbosity.quiet,
     )
 
+    # -------- coverage-guided campaign in a child process (atheris); every finding is re-run through the plain check
+    if part.fuzz_decode is not None:
+        run_fuzz(part, ctx, stats, guard, examples)
+        return
+
     # -------- exhaustive grid (sharded by index), no library involved
     if part.grid is not None:
         for i, case in enumerate(part.grid(ctx)):
@@ -221,6 +229,79 @@ def run_part(part: Part, ctx: Ctx, stats: Stats, examples: int, known: typing.Di
                 excluded.add(vv.signature)
             else:
                 raise HarnessError("flaky: %r" % ex) from ex
+
+
+def run_fuzz(part: Part, ctx: Ctx, stats: "Stats", guard: typing.Any, examples: int) -> None:
+    import subprocess
+    import tempfile
+
+    p = stats.parts.setdefault(part.name, {"evaluations": 0, "nontrivial": 0})
+    try:
+        import atheris  # noqa: F401
+    except ImportError:
+        p["fuzz"] = "atheris not importable: campaign skipped"
+        return
+    out = tempfile.mkdtemp(prefix="fuzz-", dir=ctx.scratch_root)
+    corpus = ""
+    if part.fuzz_corpus is not None and ctx.shard % 2 == 0:  # odd shards start from an empty corpus
+        corpus = os.path.join(out, "seed-corpus")
+        os.makedirs(corpus)
+        for i, blob in enumerate(part.fuzz_corpus(ctx)):
+            with open(os.path.join(corpus, "seed%03d" % i), "wb") as f:
+                f.write(blob)
+    dict_path = ""
+    if part.fuzz_dict:
+        dict_path = os.path.join(out, "dict.txt")
+        with open(dict_path, "w") as f:
+            for tok in part.fuzz_dict:
+                f.write('"%s"\n' % "".join(ch if 32 <= ord(ch) < 127 and ch not in '"\\' else "\\x%02x" % ord(ch) for ch in tok if ord(ch) < 256))
+    runs = max(1000, examples)
+    cmd = [sys.executable, "-m", "vf.fuzz.target", "--prop", ctx.prop, "--part", part.name, "--out", out, "--runs", str(runs),
+           "--seed", str(shard_seed(ctx.seed, ctx.prop, ctx.shard, part.name) % (2**31 - 1) + 1), "--repo", ctx.repo]
+    if corpus:
+        cmd += ["--corpus", corpus]
+    if dict_path:
+        cmd += ["--dict", dict_path]
+    try:
+        subprocess.run(cmd, stdout=subprocess.DEVNULL, stderr=subprocess.DEVNULL, timeout=3 * 3600)
+    except subprocess.TimeoutExpired:
+        p["fuzz"] = "campaign hit the wall cap (inconclusive)"
+    st = {}
+    try:
+        st = json.load(open(os.path.join(out, "stats.json")))
+    except (OSError, ValueError):
+        pass
+    p["evaluations"] += int(st.get("execs", 0))
+    stats.evaluations += int(st.get("execs", 0))
+    p["fuzz_execs"] = int(st.get("execs", 0))
+    p["fuzz_corpus"] = "seeded" if corpus else "empty"
+    p["fuzz_raw_findings"] = int(st.get("violations", 0))
+    # re-run the findings (and a sample of the evolved corpus, for the evidence) through the plain check
+    for fn in sorted(os.listdir(out)):
+        if fn.startswith("finding-"):
+            rec = json.load(open(os.path.join(out, fn)))
+            case = rec["case"]
+            try:
+                ok, info = guard(case, lambda: part.check(case, ctx))
+                stats.record(part.name, case, info if ok else None)
+            except Violation as v:
+                stats.violations.append(_violation_record(part, ctx, case, v, salt="fuzz"))
+    cdir = os.path.join(out, "corpus")
+    if os.path.isdir(cdir):
+        for fn in sorted(os.listdir(cdir))[:200]:
+            try:
+                case = part.fuzz_decode(open(os.path.join(cdir, fn), "rb").read())
+                if case is None:
+                    continue
+                ok, info = guard(case, lambda: part.check(case, ctx))
+                stats.record(part.name, case, info if ok else None)
+            except Violation as v:
+                stats.violations.append(_violation_record(part, ctx, case, v, salt="fuzz-corpus"))
+            except Exception:  # pylint: disable=broad-except
+                continue
+    import shutil
+
+    shutil.rmtree(out, ignore_errors=True)
 
 
 def _violation_record(part: Part, ctx: Ctx, case: typing.Any, v: Violation, salt: str, flaky: bool = False) -> dict:
